@@ -327,7 +327,15 @@ func collectExprRel(expr Expr) []UniRel {
 			same := frt.Pipe(frt.Pipe(slice.Tail(btypes), (func(_r0 []FType) [][]UniRel {
 				return slice.Map((func(_r0 FType) []UniRel { return unifyType(ftype, _r0) }), _r0)
 			})), slice.Concat)
-			return frt.Pipe(frt.Pipe(frt.Pipe(frt.Pipe(blocks, (func(_r0 []Block) [][]UniRel { return slice.Map(colB, _r0) })), slice.Concat), (func(_r0 []UniRel) []UniRel { return slice.Append(colE(me.Target), _r0) })), (func(_r0 []UniRel) []UniRel { return slice.Append(same, _r0) }))
+			trels := (func() []UniRel {
+				switch (me.Rules).(type) {
+				case MatchRules_RStrings:
+					return unifyType(ExprToType(me.Target), New_FType_FString)
+				default:
+					return emptyRels()
+				}
+			})()
+			return frt.Pipe(frt.Pipe(frt.Pipe(frt.Pipe(frt.Pipe(blocks, (func(_r0 []Block) [][]UniRel { return slice.Map(colB, _r0) })), slice.Concat), (func(_r0 []UniRel) []UniRel { return slice.Append(colE(me.Target), _r0) })), (func(_r0 []UniRel) []UniRel { return slice.Append(same, _r0) })), (func(_r0 []UniRel) []UniRel { return slice.Append(trels, _r0) }))
 		default:
 			panic("Union pattern fail. Never reached here.")
 		}
